@@ -6,6 +6,7 @@
 
 #[path = "../../harness/oracle.rs"]
 mod oracle;
+mod dir_kind;
 mod file_kind;
 mod serve_kind;
 mod stream_kind;
@@ -24,6 +25,8 @@ fn main() {
         "should_gzip" => stream_kind::run_should_gzip(&sc),
         "streaming" => stream_kind::run_streaming(&sc),
         "file" => file_kind::run(&sc),
+        "dir_path" => dir_kind::run_path(&sc),
+        "dir_node" => dir_kind::run_node(&sc),
         k => json!({"error": format!("unknown scenario kind {k:?}")}),
     };
     println!("{}", serde_json::to_string(&out).unwrap());
